@@ -189,6 +189,9 @@ def c12(run):
           ("mc_snm", dict(names="Names3", sal="Sal2", methods=snm, nm="NMq", maxnames=3))]
     gen = [("g_sel%d" % i, dict(names="Names3", sal="Sal2", methods=[m], maxnames=T(run, 2, 3), beh="Beh2"))
            for i, m in enumerate(sel)]
+    # negative, zero and positive saliences together in the sorted variants
+    gen += [("g_selneg", dict(names=T(run, "Names2", "Names3"), sal="Sal3", methods=sel[:2] + ["ExecuteSelectedRulesWithControlAndStopTag"],
+                              maxnames=T(run, 2, 3), beh="Beh1"))]
     if run.tier == "quick":
         gen += [("g_snm", dict(names="Names2", sal="Sal2", methods=snm, nm="NMq", maxnames=2, beh="Beh2")),
                 ("g_snm3", dict(names="Names3", sal="Sal1", methods=snm, nm="NM11", maxnames=3, beh="Beh1"))]   # name lists longer than N+M
@@ -220,7 +223,9 @@ def c14(run):
     gen = [("g_tag", dict(names="Names3", sal="Sal2", methods=tagm[:1], beh="Beh2", tag=True)),
            ("g_mixtag", dict(names="Names3", sal="Sal2", methods=tagm[1:2], beh="Beh2", tag=True)),
            ("g_seltag", dict(names=T(run, "Names2", "Names3"), sal="Sal2", methods=tagm[2:], beh="Beh2", tag=True,
-                             maxnames=T(run, 2, 3)))]
+                             maxnames=T(run, 2, 3))),
+           # the rule that sets the tag may also return a value
+           ("g_tagret", dict(names="Names3", sal="Sal1", methods=tagm, beh="Beh3", tag=True, maxnames=T(run, 2, 3)))]
     notag = {"ExecuteWithStopTagDirect": "Execute", "ExecuteMixModelWithStopTagDirect": "ExecuteMixModel",
              "ExecuteSelectedRulesWithControlAndStopTag": "ExecuteSelectedRulesWithControl",
              "ExecuteSelectedRulesWithControlAndStopTagAsGivenSortedName": "ExecuteSelectedRulesWithControlAsGivenSortedName"}
